@@ -38,6 +38,15 @@ class Connection:
     if self.is_connected():
       raise gfapy.RuntimeError(
         "Line {} is already connected to a GFA instance".format(self))
+    # (as in add_line) a line of the other version cannot be connected
+    if (gfa.version == "gfa1" and \
+          self.__class__ in gfapy.Lines.GFA2Specific) or \
+       (gfa.version == "gfa2" and \
+          self.__class__ in gfapy.Lines.GFA1Specific):
+      raise gfapy.VersionError(
+        "Version: {}\n".format(gfa.version)+
+        "Cannot connect instance of incompatible line type "+
+        str(type(self)))
     previous = gfa._search_duplicate(self)
     if previous:
       if previous.virtual and \
